@@ -22,6 +22,8 @@
 #include <vector>
 #include <cstring>
 #include <unistd.h>
+#include <chrono>
+#define DRAIN_MS 1500
 using namespace uscxml;
 
 static std::ostream* out = &std::cout;
@@ -178,7 +180,8 @@ static void runHistory(const Job& j) {
 	if (guard >= j.maxsteps) *out << "STEPCAP\n";
 	if (j.flag("drain")) {
 		// wait for pending delayed events: blocking steps until the machine stayed idle for a whole period
-		for (int k = 0; k < 12 && st != USCXML_FINISHED; k++) { st = a.ip.step(1500); *out << "R " << st << "\n"; if (st == USCXML_IDLE) break; }
+		// (an IDLE that comes back early was only the wake-up for something the timer thread put into the internal queue: keep stepping)
+		for (int k = 0; k < 40 && st != USCXML_FINISHED; k++) { auto t0 = std::chrono::steady_clock::now(); st = a.ip.step(DRAIN_MS); *out << "R " << st << "\n"; if (st == USCXML_IDLE && std::chrono::steady_clock::now() - t0 >= std::chrono::milliseconds(DRAIN_MS - 100)) break; }
 	}
 	dumpEnd(a, j);
 	if (resumed) {
@@ -201,7 +204,7 @@ static void runHistory(const Job& j) {
 		}
 		if (guard >= j.maxsteps) *out << "B STEPCAP\n";
 		if (j.flag("drain")) {
-			for (int k = 0; k < 12 && st != USCXML_FINISHED; k++) { st = b.ip.step(1500); *out << "B R " << st << "\n"; if (st == USCXML_IDLE) break; }
+			for (int k = 0; k < 40 && st != USCXML_FINISHED; k++) { auto t0 = std::chrono::steady_clock::now(); st = b.ip.step(DRAIN_MS); *out << "B R " << st << "\n"; if (st == USCXML_IDLE && std::chrono::steady_clock::now() - t0 >= std::chrono::milliseconds(DRAIN_MS - 100)) break; }
 		}
 		dumpEnd(b, j);
 		pfx = "";
